@@ -4,6 +4,8 @@ import (
 	"encoding/json"
 	"fmt"
 	"math/rand/v2"
+	"os"
+	"path/filepath"
 	"reflect"
 	"regexp"
 	"sort"
@@ -108,6 +110,18 @@ func walkLeaves(v reflect.Value, path string, out *[]leaf) {
 }
 
 var c17BranchA, c17BranchB atomic.Int64
+
+// inflight records the case being verified where the driver finds it if the process dies (the verifier's own goroutines
+// cannot be put under recover()).
+func inflight(desc string) {
+	dir := filepath.Join(mon.Dir(), "replays", "C17")
+	_ = os.MkdirAll(dir, 0o755)
+	if desc == "" {
+		_ = os.Remove(filepath.Join(dir, "inflight.txt"))
+		return
+	}
+	_ = os.WriteFile(filepath.Join(dir, "inflight.txt"), []byte(desc), 0o644)
+}
 
 func runC17(r *mon.Run) {
 	verifhooks.SetVerifPoint(func(name string) {
@@ -302,7 +316,9 @@ func c17Key(r *mon.Run, rng *rand.Rand, bits, nb, nLeaves, keyNo int) {
 			continue
 		}
 		l.set(nv)
+		inflight(fmt.Sprintf("component %s altered (%s), %s", l.path, op, desc))
 		ok, p := verify(s, rt)
+		inflight("")
 		l.set(orig)
 		out := outcome(ok, nil)
 		if p {
@@ -317,6 +333,29 @@ func c17Key(r *mon.Run, rng *rand.Rand, bits, nb, nLeaves, keyNo int) {
 		}
 		if t < 3 {
 			r.Sample(map[string]any{"altered_leaf": l.path, "kind": kind, "operator": op, "key": desc})
+		}
+	}
+	// every kind of component removed (nil) at its first, last and a random position: the verifier has to refuse the
+	// proof by returning false - the proof comes from an issuer nobody trusts yet, a crash is not a refusal
+	for _, kind := range kindNames {
+		pos := kinds[kind]
+		for _, li := range []int{pos[0], pos[len(pos)-1], pos[rng.IntN(len(pos))]} {
+			l := leaves[li]
+			orig := l.get()
+			l.set(nil)
+			var ok bool
+			inflight(fmt.Sprintf("component %s removed (nil), %s", l.path, desc))
+			pv, stack := mon.Try(func() { ok = s.VerifyProof(rt) })
+			inflight("")
+			l.set(orig)
+			r.Eval("leaf-removed", outcome(ok, pv))
+			r.Distinct("leaf-removed", desc, l.path)
+			if pv != nil {
+				r.Violation("C17/verifier-crashes-on-missing-component", fmt.Sprintf("VerifyProof panics instead of refusing a proof whose component %s is missing: %v at %s (%s)", l.path, pv, mon.PanicSite(stack), desc),
+					map[string]any{"key": keyRep, "leaf": l.path, "stack": stack})
+			} else if ok {
+				r.Violation("C17/altered-proof-verifies", fmt.Sprintf("key proof still verifies with component %s missing (%s)", l.path, desc), map[string]any{"key": keyRep, "leaf": l.path, "operator": "nil"})
+			}
 		}
 	}
 	seenKinds := covered
